@@ -43,35 +43,49 @@ theorem natToDec_small :
     natToDec 43 = tag43 := by
   refine ⟨?_, ?_, ?_, ?_, ?_, ?_, ?_, ?_, ?_⟩ <;> simp [natToDec, tag34, tag35, tag49, tag52, tag56, tag43]
 
+/-- BodyLength as `buildFrame` computes it -/
+def blenOf (s : Session.Session) (stamp : String) (m : Session.Msg) (seq : Int) : Nat :=
+  ((Session.bodyFields s stamp m seq).map Session.fieldLen).sum + Session.fieldLen (Session.tMsgType, m.mtype)
+
+/-- the frame's fields in front of CheckSum: everything the checksum covers -/
+def preTags (s : Session.Session) (stamp : String) (m : Session.Msg) (seq : Int) : List (Nat × String) :=
+  [(Session.tBeginString, Proto.beginString), (Session.tBodyLength, toString (blenOf s stamp m seq)),
+   (Session.tMsgType, m.mtype)] ++ Session.bodyFields s stamp m seq
+
+/-- CheckSum as `buildFrame` computes it -/
+def ckOf (s : Session.Session) (stamp : String) (m : Session.Msg) (seq : Int) : Nat :=
+  ((preTags s stamp m seq).map Session.fieldSum).sum % 256
+
+theorem buildFrame_tags (s : Session.Session) (stamp : String) (m : Session.Msg) (seq : Int) :
+    (Session.buildFrame s stamp m seq).tags =
+      preTags s stamp m seq ++ [(Session.tCheckSum, Session.pad3 (ckOf s stamp m seq))] := rfl
+
+/-- BodyLength: the session model's `fieldLen` sum is the byte count of the body -/
+theorem length_sessFlds (s : Session.Session) (stamp : String) (m : Session.Msg) (seq : Int) :
+    (bodyBytes (sessFlds s stamp m seq)).length = blenOf s stamp m seq := by
+  rw [sessFlds, length_bodyBytes_toFld, List.map_cons, List.sum_cons, blenOf]; omega
+
+theorem preFlds_sessFlds (s : Session.Session) (stamp : String) (m : Session.Msg) (seq : Int) :
+    Codec.preFlds Proto.beginStringBytes (sessFlds s stamp m seq) = (preTags s stamp m seq).map toFld := by
+  obtain ⟨h8, h9, -⟩ := natToDec_small
+  rw [Codec.preFlds, length_sessFlds]
+  simp only [preTags, sessFlds, List.map_cons, List.cons_append, List.nil_append, toFld,
+    Session.tBeginString, Session.tBodyLength, h8, h9, beginString_agree, cps_toString_nat]
+
+/-- CheckSum: the session model's `fieldSum` sum is the byte sum of everything in front of it -/
+theorem frameCk_sessFlds (s : Session.Session) (stamp : String) (m : Session.Msg) (seq : Int) :
+    Codec.frameCk Proto.beginStringBytes (sessFlds s stamp m seq) = ckOf s stamp m seq := by
+  rw [Codec.frameCk, Codec.framePre_eq, preFlds_sessFlds, sum_bodyBytes_toFld, ckOf]
+
 /-- **the fields of the session model's frame are the fields of the codec's `mkFrame`** -/
 theorem buildFrame_flds (s : Session.Session) (stamp : String) (m : Session.Msg) (seq : Int) :
     (Session.buildFrame s stamp m seq).tags.map toFld =
       Codec.frameFlds Proto.beginStringBytes (sessFlds s stamp m seq) := by
-  obtain ⟨h8, h9, h10, -⟩ := natToDec_small
-  have hlen : (bodyBytes (sessFlds s stamp m seq)).length =
-      ((Session.bodyFields s stamp m seq).map Session.fieldLen).sum +
-        Session.fieldLen (Session.tMsgType, m.mtype) := by
-    rw [sessFlds, length_bodyBytes_toFld, List.map_cons, List.sum_cons]; omega
-  -- everything the checksum covers, as a session-side field list
-  have hpre : Codec.preFlds Proto.beginStringBytes (sessFlds s stamp m seq) =
-      ([(Session.tBeginString, Proto.beginString),
-        (Session.tBodyLength, toString (((Session.bodyFields s stamp m seq).map Session.fieldLen).sum +
-          Session.fieldLen (Session.tMsgType, m.mtype))),
-        (Session.tMsgType, m.mtype)] ++ Session.bodyFields s stamp m seq).map toFld := by
-    rw [Codec.preFlds, hlen]
-    simp only [sessFlds, List.map_cons, List.cons_append, List.nil_append, toFld,
-      Session.tBeginString, Session.tBodyLength, h8, h9, beginString_agree, cps_toString_nat]
-  have hck : Codec.frameCk Proto.beginStringBytes (sessFlds s stamp m seq) =
-      (([(Session.tBeginString, Proto.beginString),
-        (Session.tBodyLength, toString (((Session.bodyFields s stamp m seq).map Session.fieldLen).sum +
-          Session.fieldLen (Session.tMsgType, m.mtype))),
-        (Session.tMsgType, m.mtype)] ++ Session.bodyFields s stamp m seq).map Session.fieldSum).sum % 256 := by
-    rw [Codec.frameCk, Codec.framePre_eq, hpre, sum_bodyBytes_toFld]
-  have hpad : ∀ n : Nat, cps (Session.pad3 (n % 256)) = dec3 (n % 256) :=
-    fun n => cps_pad3 _ (by omega)
-  rw [Codec.frameFlds, hpre, Codec.ckFld, hck]
-  simp only [Session.buildFrame, List.map_append, List.map_cons, List.map_nil, toFld,
-    Session.tCheckSum, h10, hpad]
+  obtain ⟨-, -, h10, -⟩ := natToDec_small
+  have hpad : cps (Session.pad3 (ckOf s stamp m seq)) = dec3 (ckOf s stamp m seq) :=
+    cps_pad3 _ (by unfold ckOf; omega)
+  rw [Codec.frameFlds, preFlds_sessFlds, Codec.ckFld, frameCk_sessFlds, buildFrame_tags]
+  simp only [List.map_append, List.map_cons, List.map_nil, toFld, Session.tCheckSum, h10, hpad]
 
 /-- **Bridge, frame level**: the wire bytes of the session model's frame are the codec's `mkFrame`
 of the protocol's BeginString and the wire fields. -/
